@@ -5,13 +5,20 @@ from . import e2e, outparse, quicsynth, scene, suites, tcpcap, tlssynth
 
 
 def random_tls_flow(rng, idx=0, ep=None, nmax=12, big=False, segkinds=("mss", "random", "whole", "records"), version=None, code=None, sport=443, v6=None,
-                    min_records=0, perturb=False):
+                    min_records=0, perturb=False, resume_of=None, duplex=False, repack=False):
+    """resume_of: an earlier TLS <= 1.2 flow whose session this one resumes (same version, suite and master secret, fresh randoms)"""
     mx = suites.matrix()
     if version is None:
         v, c, name, p = suites.pick(rng)
     else:
         v, c = version, code
+    if resume_of is not None:
+        v, c = resume_of.conn.spec.version, resume_of.conn.spec.suite
     spec, cl = tlssynth.random_spec(rng, v, c, nmax=nmax, big=big)
+    if resume_of is not None:
+        spec.resumed = True
+        spec.master = resume_of.conn.master
+        spec.etm = resume_of.conn.spec.etm
     while len(spec.app) < min_records:
         spec.app.append((rng.choice("cs"), rng.randbytes(rng.randrange(1, 200))))
     conn = tlssynth.build_conn(spec, rng)
@@ -21,8 +28,14 @@ def random_tls_flow(rng, idx=0, ep=None, nmax=12, big=False, segkinds=("mss", "r
     if perturb:     # same byte streams, perturbed delivery: retransmitted duplicates and bounded reordering
         segs = tcpcap.displace(tcpcap.add_duplicates(segs, rng, rng.choice([0, 1, 3])), rng, rng.choice([1, 2, 4]), maxdist=rng.choice([1, 2, 3]))
         segkind += "+reordered"
+    if repack:      # repacketized retransmissions: same sequence number, longer payload
+        segs = tcpcap.add_repacketized(segs, rng, rng.choice([1, 2]))
+        segkind += "+repack"
+    if duplex:      # full-duplex application phase: the two directions' segments interleave
+        segs = tcpcap.interleave_app(segs, conn.events, rng)
+        segkind += "+duplex"
     fl = scene.tls_flow(conn, ep, segs)
-    fl.label = f"tls-{suites.VNAME[v]}-{c:04X}"
+    fl.label = f"tls-{suites.VNAME[v]}-{c:04X}" + ("-resumes" if resume_of is not None else "")
     fl.segkind = segkind
     return fl
 
